@@ -386,7 +386,8 @@ def run(ck: common.Check):
         "hypothesis of the Free theorems; it is evaluated on every exported procedure and reported below",
     ]
     ck.assumptions += [
-        "wf_b p (Spec.v) for C08_free_once / C08_free_after / C08_const",
+        "wf_b p (Spec.v) for C08_free_once / C08_free_after; additionally rhs_ok for C08_total and ascoped_b (ModelScope.v) for "
+        "C08_runs_clean; wfw_b for C08_const — all evaluated on every exported real procedure (coverage.hypotheses_on_real_procedures)",
         "divisors are positive integer literals (front end) and range-analysis flags are sound (C13) for C08_divmod_choice",
         "memories other than DRAM / DRAM_STACK / DRAM_STATIC are not executed",
         "parallel loops are compiled without -fopenmp in the search (pragma ignored)",
@@ -450,11 +451,12 @@ def compare_one(ck, stream, kind, term, real, meta, m, wf, wfw):
             ck.corr_diverge(stream, {"case": meta, "why": "model evaluation failed"})
             return
         if kind == "mem":
-            wfflag, m = m[0], m[1:]
+            hyps, m = m[0], m[1:]
+            wfflag = hyps == 7  # wf_b + 2*ascoped_b + 4*rhs_ok: all hypotheses of C08_free_* / C08_total / C08_runs_clean
             if stream == "mem-analysis":
                 wf["true" if wfflag else "false"] += 1
                 if not wfflag and len(wf["false_samples"]) < 5:
-                    wf["false_samples"].append(meta)
+                    wf["false_samples"].append(dict(meta, wf_b=bool(hyps & 1), ascoped_b=bool(hyps & 2), rhs_ok=bool(hyps & 4)))
             nfree = m.count(8) if m and m[0] == 0 else 0
             tagk = ("malformed:" if meta.get("malformed") else "") + ("err" if m and m[0] < 0 else "frees=%d" % min(m[1:].count(8), 4) if m else "?")
             ck.case(stream, term, nontrivial=(len(m) > 3), tag=tagk,
@@ -519,11 +521,11 @@ def compare_one(ck, stream, kind, term, real, meta, m, wf, wfw):
 
 def finish_corr(ck, wf, wfw, suspects):
     nonlit = wf.get("nonlit", 0)
-    ck.cov["hypotheses_on_real_procedures"] = {"wf_b_true": wf["true"], "wf_b_false": wf["false"], "wf_b_false_samples": wf["false_samples"],
+    ck.cov["hypotheses_on_real_procedures"] = {"free_theorem_hyps_true": wf["true"], "free_theorem_hyps_false": wf["false"], "free_theorem_hyps_false_samples": wf["false_samples"],
                                                "wfw_b_true": wfw["true"], "wfw_b_false": wfw["false"], "wfw_b_false_samples": wfw["false_samples"],
                                                "non_literal_divisors": nonlit}
-    ck.log("hypotheses on exported real procedures: wf_b %d true / %d false; wfw_b %d true / %d false; expressions with a "
-           "non-literal divisor: %d" % (wf["true"], wf["false"], wfw["true"], wfw["false"], nonlit))
+    ck.log("hypotheses on exported real procedures: wf_b & ascoped_b & rhs_ok %d true / %d false; wfw_b %d true / %d false; "
+           "expressions with a non-literal divisor: %d" % (wf["true"], wf["false"], wfw["true"], wfw["false"], nonlit))
     for name, s in sorted(ck.streams.items()):
         ck.log("stream %-18s cases %5d agree %5d diverge %d" % (name, s["cases"], s["agree"], s["diverge"]))
         if name != "sanitizer-search" and s["cases"] == 0:
